@@ -114,10 +114,6 @@ Definition orientation_current (ph0 ph1 : phasing2) : bool :=
 Definition orientation_fixed (ph0 ph1 : phasing2) : bool :=
   Nat.ltb (hamming (fst ph0) (fst ph1)) (hamming (fst ph0) (complement (fst ph1))).
 
-(* >>> THE ONE DEFINITION TO SWITCH after compare_pair is repaired in /repo:
-       replace orientation_current by orientation_fixed on the next line. <<< *)
-Definition orientation : phasing2 -> phasing2 -> bool := orientation_current.
-
 Fixpoint zip_with {A B C : Type} (f : A -> B -> C) (l0 : list A) (l1 : list B) : list C :=
   match l0, l1 with
   | a :: t0, b :: t1 => f a b :: zip_with f t0 t1
@@ -127,9 +123,22 @@ Fixpoint zip_with {A B C : Type} (f : A -> B -> C) (l0 : list A) (l1 : list B) :
 (* [1*(p0 == p1) ...] if the orientation test holds, else [1*(p0 != p1) ...] *)
 Definition agreement_with (orient : phasing2 -> phasing2 -> bool) (ph0 ph1 : phasing2) : list bool :=
   if orient ph0 ph1 then zip_with Bool.eqb (fst ph0) (fst ph1) else zip_with xorb (fst ph0) (fst ph1).
-Definition agreement : phasing2 -> phasing2 -> list bool := agreement_with orientation.
-Definition agreement_current := agreement_with orientation_current.
-Definition agreement_fixed := agreement_with orientation_fixed.
+(* the code as it is *)
+Definition agreement_current : phasing2 -> phasing2 -> list bool := agreement_with orientation_current.
+(* repair as proposed in DESIGN F1 *)
+Definition agreement_fixed : phasing2 -> phasing2 -> list bool := agreement_with orientation_fixed.
+(* alternative repair that also avoids complement() (which raises KeyError on alleles >= 2):
+     if hamming(phasing0[0], phasing1[0]) < hamming(phasing0[0], phasing1[1]):
+         [1 * (a == b) for a, b in zip(phasing0[0], phasing1[0])]
+     else:
+         [1 * (a == b) for a, b in zip(phasing0[0], phasing1[1])]                                  *)
+Definition agreement_fixed_alt (ph0 ph1 : phasing2) : list bool :=
+  if Nat.ltb (hamming (fst ph0) (fst ph1)) (hamming (fst ph0) (snd ph1))
+  then zip_with Bool.eqb (fst ph0) (fst ph1) else zip_with Bool.eqb (fst ph0) (snd ph1).
+
+(* >>> THE ONE DEFINITION TO SWITCH after compare_pair is repaired in /repo:
+       replace agreement_current by agreement_fixed (or agreement_fixed_alt) on the next line. <<< *)
+Definition agreement : phasing2 -> phasing2 -> list bool := agreement_fixed_alt.
 
 (* number of positions marked 0 (= disagreement) in the agreement vector *)
 Definition zeros (v : list bool) : nat := length (filter negb v).
@@ -231,7 +240,7 @@ Definition pe_add (a b : phasing_errors) : phasing_errors :=
 Definition ps_init := PS pe_zero 0 0 0 pe_zero [] [] [].
 
 (* one iteration of the loop over block_intersection.values() in compare_pair (ploidy 2) *)
-Definition pair_step (orient : phasing2 -> phasing2 -> bool) (ph0 ph1 : list dphase) (positions : list Z)
+Definition pair_step (agree : phasing2 -> phasing2 -> list bool) (ph0 ph1 : list dphase) (positions : list Z)
                      (st : option pair_state) (block : list nat) : option pair_state :=
   match st with
   | None => None
@@ -250,13 +259,13 @@ Definition pair_step (orient : phasing2 -> phasing2 -> bool) (ph0 ph1 : list dph
                (if longer then length block else ps_longest s)
                (if longer then e else ps_longest_err s)
                (if longer then bpos else ps_longest_pos s)
-               (if longer then agreement_with orient p0 p1 else ps_longest_agree s)
+               (if longer then agree p0 p1 else ps_longest_agree s)
                (ps_bed s ++ bed_records (fst p0) (fst p1) bpos))
     end
   end.
 
 (* compare() for two diploid data sets: (intersection_block_count, intersection_block_variants, final state) *)
-Definition compare2_with (orient : phasing2 -> phasing2 -> bool) (t0 t1 : list call)
+Definition compare2_with (agree : phasing2 -> phasing2 -> list bool) (t0 t1 : list call)
   : nat * nat * option pair_state :=
   let ts := [t0; t1] in
   let blocks := map snd (block_intersection (ids_of ts)) in
@@ -264,8 +273,8 @@ Definition compare2_with (orient : phasing2 -> phasing2 -> bool) (t0 t1 : list c
   let positions := map c_pos (common_variants ts) in
   let ph := phases_of ts in
   (length big, fold_right (fun b acc => length b + acc) 0 big,
-   fold_left (pair_step orient (nth 0 ph []) (nth 1 ph []) positions) blocks (Some ps_init)).
-Definition compare2 := compare2_with orientation.
+   fold_left (pair_step agree (nth 0 ph []) (nth 1 ph []) positions) blocks (Some ps_init)).
+Definition compare2 := compare2_with agreement.
 
 (* -- compare_multiway: histogram of canonical switch patterns -- *)
 Fixpoint lex_ltb (a b : list bool) : bool :=     (* python string '<' on 0/1 strings *)
